@@ -158,3 +158,14 @@ claim("C11", "the cache mechanism is proved transparent per function: BuiltinMed
                               "histories of length <= 2 quick / 3 thorough). replace()/extend() themselves (with-statement over a generator "
                               "context manager) are outside the executor's subset: their effect is covered by the _calculate_derived contracts "
                               "and the histories. normalize_type's process-wide lru_cache is not under contract.")
+
+claim("C16", "GenericResolver._get_type_var_to_actual proved for every arity (the i-th class type variable is bound to exactly the i-th "
+             "argument, nothing else is bound; loop invariant over a symbolic dict); substitution through class hierarchies is decided on a "
+             "printed family of generic models (multi-level, partially bound, re-ordered, shadowed, bare parents, bound/constrained variables, "
+             "diamonds, nested generic fields; dataclass, attrs, TypedDict, NamedTuple) x parametrisations from a type pool, by loading data "
+             "that fits the expected substitution (must load) and data fitting only another one (must fail), the expectation coming from an "
+             "independent reference resolver",
+      note=NOTE + " C16-specific: the walk over live typing objects (__orig_bases__, __parameters__, alias subscription, implicit parameters) "
+                  "is reflection and outside the contracts: that part is a bounded enumeration (labelled bounded, never counted as proved; "
+                  "bounds printed in the evidence). TypeVarTuple / ParamSpec / pydantic / sqlalchemy generics are outside the family. Known "
+                  "finding recorded: shadowing in generic TypedDict children.")
